@@ -368,7 +368,9 @@ def compile_ast(
         group_by = [name_in_df[uid] for uid in partition_by]
         # polars complains about an empty group_by
         if group_by:
-            df = df.group_by(*group_by).agg(**aggregations)
+            # A lazy frame may be evaluated more than once (the left join with a non-equality
+            # condition numbers its rows), so the row order has to be reproducible.
+            df = df.group_by(*group_by, maintain_order=True).agg(**aggregations)
         else:
             df = df.select(**aggregations)
 
@@ -523,7 +525,7 @@ def compile_ast(
             if nd.distinct:
                 # For UNION (distinct), we need to deduplicate
                 # Polars doesn't have a direct UNION without ALL, so we concat and then distinct
-                df = pl.concat([df, right_df]).unique()
+                df = pl.concat([df, right_df]).unique(maintain_order=True)
             else:
                 # For UNION ALL (not distinct), just concat
                 df = pl.concat([df, right_df])
